@@ -94,6 +94,7 @@ func (c *Ctx) JoinedFork(rule string, fn *ssa.Function) bool {
 			loops = append(loops, cloopOfLoop(l))
 		}
 	}
+	loops = append(loops, findStepLoops(fn)...)
 	var spawn *cloop
 	var goIns *ssa.Go
 	for _, l := range loops {
@@ -122,7 +123,7 @@ func (c *Ctx) JoinedFork(rule string, fn *ssa.Function) bool {
 		c.R.Unknown(rule, Fn(fn), c.P.FuncPos(fn), "no counted loop starting the workers found (expected `for w := range workers { go ... }`)")
 		return false
 	}
-	W := spawn.bound
+	W := spawn.count()
 	// worker function: a closure, or a named module function given everything as arguments
 	var wf *ssa.Function
 	outer := func(v ssa.Value) ssa.Value { return v } // maps a value of wf that denotes something of fn to fn's frame
@@ -233,11 +234,76 @@ func (c *Ctx) JoinedFork(rule string, fn *ssa.Function) bool {
 			}
 		}
 	}
-	// collector loop
+	// collector loop: in the helper itself, or in a module function the helper calls after the start loop with the
+	// worker count and the channels as arguments
+	cf := fn                                         // the function holding the collector loop
+	toFn := func(v ssa.Value) ssa.Value { return v } // maps a value of cf's frame to fn's frame
+	var collCall ssa.CallInstruction
+	cloops := loops
+	hasSelect := func(ls []*cloop) bool {
+		for _, l := range ls {
+			if l == spawn {
+				continue
+			}
+			for b := range l.body {
+				for _, ins := range b.Instrs {
+					if sl, ok := ins.(*ssa.Select); ok && sl.Blocking {
+						return true
+					}
+				}
+			}
+		}
+		return false
+	}
+	if !hasSelect(loops) {
+		for _, ci := range Calls(fn, func(ci ssa.CallInstruction) bool {
+			f := ci.Common().StaticCallee()
+			return f != nil && prog.InModule(f) && f.Blocks != nil && !ci.Common().IsInvoke()
+		}) {
+			g := ci.Common().StaticCallee()
+			if _, isGo := ci.(*ssa.Go); isGo {
+				continue
+			}
+			gl := allCloops(g)
+			if !hasSelect(gl) {
+				continue
+			}
+			if collCall != nil {
+				c.R.Unknown(rule, Fn(fn), c.Pos(ci), "more than one collecting helper is called")
+				return false
+			}
+			collCall, cf, cloops = ci, g, gl
+			args := ci.Common().Args
+			toFn = func(v ssa.Value) ssa.Value {
+				if ct, ok := v.(*ssa.ChangeType); ok {
+					v = ct.X
+				}
+				if p, ok := v.(*ssa.Parameter); ok && p.Parent() == g {
+					for k, q := range g.Params {
+						if q == p && k < len(args) {
+							return args[k]
+						}
+					}
+				}
+				return nil
+			}
+		}
+	}
 	var coll *cloop
 	var sel *ssa.Select
-	for _, l := range loops {
-		if l == spawn || !l.runs(W) {
+	for _, l := range cloops {
+		if l == spawn {
+			continue
+		}
+		cv := l.count()
+		if cf != fn {
+			m := toFn(cv.v)
+			if m == nil {
+				continue
+			}
+			cv = countNorm(m)
+		}
+		if !sameCount(cv, W) {
 			continue
 		}
 		for b := range l.body {
@@ -249,23 +315,27 @@ func (c *Ctx) JoinedFork(rule string, fn *ssa.Function) bool {
 		}
 	}
 	if coll == nil || sel == nil {
-		c.R.Fail(rule, Fn(fn), c.P.FuncPos(fn), "no loop performing one blocking receive per started worker (same bound as the start loop) found", "for range workers { <-done }", nil)
+		c.R.Fail(rule, Fn(fn), c.P.FuncPos(fn), "no loop performing one blocking receive per started worker (same count as the start loop) found", "for range workers { <-done }", nil)
 		return false
 	}
 	for _, stt := range sel.States {
 		if stt.Dir != types.RecvOnly {
-			c.R.Unknown(rule, Fn(fn), c.Pos(sel), "the collector's select has a send case")
+			c.R.Unknown(rule, Fn(cf), c.Pos(sel), "the collector's select has a send case")
 			return false
 		}
-		if !sendChans[chanID(stt.Chan, false)] {
-			c.R.Fail(rule, Fn(fn), c.Pos(sel), "the collector waits on a channel the workers do not send on", "receive on the workers' completion channels", nil)
+		ch := stt.Chan
+		if cf != fn {
+			ch = toFn(ch)
+		}
+		if ch == nil || !sendChans[chanID(ch, false)] {
+			c.R.Fail(rule, Fn(cf), c.Pos(sel), "the collector waits on a channel the workers do not send on", "receive on the workers' completion channels", nil)
 			return false
 		}
 	}
 	// every iteration passes the select; the loop is left only through its normal exit
 	if x, _ := an.Cut(an.CutQuery{From: coll.iterStart, Target: coll.iterEnd,
 		AcceptInstr: func(i ssa.Instruction) bool { return i == ssa.Instruction(sel) }}); x != nil {
-		c.R.Fail(rule, Fn(fn), c.Pos(sel), "an iteration of the collector loop can skip the receive", "one blocking receive per iteration", nil)
+		c.R.Fail(rule, Fn(cf), c.Pos(sel), "an iteration of the collector loop can skip the receive", "one blocking receive per iteration", nil)
 		return false
 	}
 	for b := range coll.body {
@@ -275,19 +345,32 @@ func (c *Ctx) JoinedFork(rule string, fn *ssa.Function) bool {
 				if _, isPanic := s.Instrs[len(s.Instrs)-1].(*ssa.Panic); isPanic {
 					continue
 				}
-				c.R.Fail(rule, Fn(fn), c.Pos(b.Instrs[len(b.Instrs)-1]), "the collector loop can be left before all workers reported (early return on error closes the channels under running workers and lets the caller read unfinished results)", "collector loop runs to completion", nil)
+				c.R.Fail(rule, Fn(cf), c.Pos(b.Instrs[len(b.Instrs)-1]), "the collector loop can be left before all workers reported (early return on error closes the channels under running workers and lets the caller read unfinished results)", "collector loop runs to completion", nil)
 				return false
 			}
 		}
 	}
 	// returns after the first go are reachable only through the collector's completion
-	if x, path := an.Cut(an.CutQuery{From: an.After(goIns), Target: func(i ssa.Instruction) bool { _, ok := i.(*ssa.Return); return ok },
-		AcceptEdge: func(b *ssa.BasicBlock, i int, a *an.Atom) bool {
-			// normal completion; or the zero-iteration bypass, which cannot be taken once a worker was started under [0 < W]
-			return coll.normalExit(b, b.Succs[i]) || coll.bypass(b, b.Succs[i])
-		}}); x != nil {
-		c.R.Fail(rule, Fn(fn), c.Pos(x), "the helper can return while workers are still running", "return only after one receive per started worker", an.PathString(c.Pos, path))
-		return false
+	isRet := func(i ssa.Instruction) bool { _, ok := i.(*ssa.Return); return ok }
+	collDone := func(b *ssa.BasicBlock, i int, a *an.Atom) bool {
+		// normal completion; or the zero-iteration bypass, which cannot be taken once a worker was started under [0 < W]
+		return coll.normalExit(b, b.Succs[i]) || coll.bypass(b, b.Succs[i])
+	}
+	if cf == fn {
+		if x, path := an.Cut(an.CutQuery{From: an.After(goIns), Target: isRet, AcceptEdge: collDone}); x != nil {
+			c.R.Fail(rule, Fn(fn), c.Pos(x), "the helper can return while workers are still running", "return only after one receive per started worker", an.PathString(c.Pos, path))
+			return false
+		}
+	} else {
+		if x, path := an.Cut(an.CutQuery{From: an.After(goIns), Target: isRet,
+			AcceptInstr: func(i ssa.Instruction) bool { return i == collCall.(ssa.Instruction) }}); x != nil {
+			c.R.Fail(rule, Fn(fn), c.Pos(x), "the helper can return while workers are still running (without calling the collecting helper)", "return only after one receive per started worker", an.PathString(c.Pos, path))
+			return false
+		}
+		if x, path := an.Cut(an.CutQuery{From: an.Entry(cf), Target: isRet, AcceptEdge: collDone}); x != nil {
+			c.R.Fail(rule, Fn(cf), c.Pos(x), "the collecting helper can return while workers are still running", "return only after one receive per started worker", an.PathString(c.Pos, path))
+			return false
+		}
 	}
 	c.R.OK(rule, Fn(fn), c.P.FuncPos(fn), "joined fork: one goroutine per iteration of a loop bounded by W; each sends exactly once after its work returned; the helper performs W blocking receives on those channels before returning")
 	return true
@@ -310,26 +393,173 @@ func chanID(v ssa.Value, isCell bool) ssa.Value {
 // cloop is a counted loop in either of the two SSA shapes (rotated `for range n`, or header-tested range/3-clause loops).
 type cloop struct {
 	body       map[*ssa.BasicBlock]bool
-	bound      ssa.Value
+	count      func() countExpr // number of iterations
 	iterStart  an.Point
 	iterEnd    func(ssa.Instruction) bool
 	normalExit func(b, s *ssa.BasicBlock) bool
 	backEdge   func(b, s *ssa.BasicBlock) bool
 	bypass     func(b, s *ssa.BasicBlock) bool
-	runs       func(W ssa.Value) bool // the loop performs exactly W iterations
+}
+
+// countExpr is an iteration count: the value v, or ceil(n/e) when n != nil (recognised from n/e (+1 if n%e != 0),
+// directly or as the single result of a module helper, and from `for o := 0; o < n; o += e`).
+type countExpr struct{ v, n, e ssa.Value }
+
+func sameCount(a, b countExpr) bool {
+	if a.v != nil && a.v == b.v {
+		return true
+	}
+	return a.n != nil && b.n != nil && a.n == b.n && a.e == b.e
+}
+
+// countNorm recognises the ceiling division in the definition of v.
+func countNorm(v ssa.Value) countExpr {
+	out := countExpr{v: v}
+	if call, ok := v.(*ssa.Call); ok {
+		f := call.Call.StaticCallee()
+		if f != nil && prog.InModule(f) && f.Blocks != nil && !call.Call.IsInvoke() {
+			rets := an.Returns(f)
+			if len(rets) == 1 && len(rets[0].Results) == 1 {
+				in := countNorm(an.Result(rets[0], 0))
+				pn, ok1 := in.n.(*ssa.Parameter)
+				pe, ok2 := in.e.(*ssa.Parameter)
+				if ok1 && ok2 {
+					for k, q := range f.Params {
+						if k >= len(call.Call.Args) {
+							break
+						}
+						if q == pn {
+							out.n = call.Call.Args[k]
+						}
+						if q == pe {
+							out.e = call.Call.Args[k]
+						}
+					}
+					if out.n == nil || out.e == nil {
+						out.n, out.e = nil, nil
+					}
+				}
+			}
+		}
+		return out
+	}
+	phi, ok := v.(*ssa.Phi)
+	if !ok || len(phi.Edges) != 2 {
+		return out
+	}
+	for k := 0; k < 2; k++ {
+		q, ok := phi.Edges[k].(*ssa.BinOp)
+		if !ok || q.Op != token.QUO {
+			continue
+		}
+		inc, ok := phi.Edges[1-k].(*ssa.BinOp)
+		if !ok || inc.Op != token.ADD || inc.X != ssa.Value(q) || !an.IsConstInt(inc.Y, 1) {
+			continue
+		}
+		// the +1 edge is taken exactly when n % e != 0
+		bq, bi := phi.Block().Preds[k], phi.Block().Preds[1-k]
+		iff, ok := bq.Instrs[len(bq.Instrs)-1].(*ssa.If)
+		if !ok || bq.Succs[0] != bi || bq.Succs[1] != phi.Block() || len(bi.Preds) != 1 || len(bi.Succs) != 1 {
+			continue
+		}
+		ne, ok := iff.Cond.(*ssa.BinOp)
+		if !ok || ne.Op != token.NEQ || !an.IsConstInt(ne.Y, 0) {
+			continue
+		}
+		rem, ok := ne.X.(*ssa.BinOp)
+		if !ok || rem.Op != token.REM || rem.X != q.X || rem.Y != q.Y {
+			continue
+		}
+		out.n, out.e = q.X, q.Y
+	}
+	return out
+}
+
+// allCloops returns the counted loops of fn in all recognised shapes.
+func allCloops(fn *ssa.Function) []*cloop {
+	var loops []*cloop
+	for _, l := range FindRotLoops(fn) {
+		loops = append(loops, cloopOfRot(l))
+	}
+	for _, l := range FindLoops(fn) {
+		if l.FullRange {
+			loops = append(loops, cloopOfLoop(l))
+		}
+	}
+	return append(loops, findStepLoops(fn)...)
+}
+
+// findStepLoops recognises `for o := 0; o < n; o += e` with n and e not changed by the loop: ceil(n/e) iterations
+// (for e > 0; with e <= 0 and n > 0 the loop does not end, which no rule here relies on).
+func findStepLoops(fn *ssa.Function) []*cloop {
+	var out []*cloop
+	for _, b := range fn.Blocks {
+		if len(b.Instrs) == 0 {
+			continue
+		}
+		iff, ok := b.Instrs[len(b.Instrs)-1].(*ssa.If)
+		if !ok {
+			continue
+		}
+		cond, ok := iff.Cond.(*ssa.BinOp)
+		if !ok || cond.Op != token.LSS {
+			continue
+		}
+		phi, ok := cond.X.(*ssa.Phi)
+		if !ok || phi.Block() != b || len(phi.Edges) != 2 {
+			continue
+		}
+		var step ssa.Value
+		okInit := false
+		for k := 0; k < 2; k++ {
+			if add, ok := phi.Edges[k].(*ssa.BinOp); ok && add.Op == token.ADD && add.X == ssa.Value(phi) && an.IsConstInt(phi.Edges[1-k], 0) {
+				step, okInit = add.Y, true
+			}
+		}
+		if !okInit || an.IsConstInt(step, 1) {
+			continue
+		}
+		l := &Loop{Header: b, Cond: cond, BodyFirst: b.Succs[0], Exit: b.Succs[1], Body: map[*ssa.BasicBlock]bool{}}
+		st := []*ssa.BasicBlock{l.BodyFirst}
+		for len(st) > 0 {
+			x := st[len(st)-1]
+			st = st[:len(st)-1]
+			if x == b || l.Body[x] {
+				continue
+			}
+			l.Body[x] = true
+			st = append(st, x.Succs...)
+		}
+		invariant := func(v ssa.Value) bool {
+			switch x := v.(type) {
+			case *ssa.Parameter, *ssa.Const:
+				return true
+			case ssa.Instruction:
+				return !l.Body[x.Block()] && x.Block() != b
+			}
+			return false
+		}
+		if !invariant(step) || !invariant(cond.Y) {
+			continue
+		}
+		cl := cloopOfLoop(l)
+		n, e := cond.Y, step
+		cl.count = func() countExpr { return countExpr{n: n, e: e} }
+		out = append(out, cl)
+	}
+	return out
 }
 
 func cloopOfRot(l *RotLoop) *cloop {
 	last := l.Latch.Instrs[len(l.Latch.Instrs)-1]
 	return &cloop{
 		body:       l.Body,
-		bound:      l.Bound,
+		count:      func() countExpr { return countNorm(l.Bound) },
 		iterStart:  an.Point{Block: l.Head, Idx: 0},
 		iterEnd:    func(i ssa.Instruction) bool { return i == last },
 		normalExit: func(b, s *ssa.BasicBlock) bool { return b == l.Latch && s == l.Done },
 		backEdge:   func(b, s *ssa.BasicBlock) bool { return b == l.Latch && s == l.Head },
 		bypass:     func(b, s *ssa.BasicBlock) bool { return b == l.Pre && s == l.Done },
-		runs:       func(W ssa.Value) bool { return l.Bound == W },
 	}
 }
 
@@ -342,23 +572,19 @@ func cloopOfLoop(l *Loop) *cloop {
 	}
 	first := l.Header.Instrs[0]
 	return &cloop{
-		body:       body,
-		bound:      l.Bound,
+		body: body,
+		count: func() countExpr {
+			if mk, ok := l.BoundLen.(*ssa.MakeSlice); ok {
+				// for i := range make([]T, W): the slice header is not reassigned (exact root)
+				return countNorm(mk.Len)
+			}
+			return countNorm(l.Bound)
+		},
 		iterStart:  an.Point{Block: l.BodyFirst, Idx: 0},
 		iterEnd:    func(i ssa.Instruction) bool { return i == first },
 		normalExit: func(b, s *ssa.BasicBlock) bool { return b == l.Header && s == l.Exit },
 		backEdge:   func(b, s *ssa.BasicBlock) bool { return s == l.Header },
 		bypass:     func(b, s *ssa.BasicBlock) bool { return false },
-		runs: func(W ssa.Value) bool {
-			if l.Bound == W {
-				return true
-			}
-			if mk, ok := l.BoundLen.(*ssa.MakeSlice); ok && mk.Len == W {
-				// for i := range make([]T, W): the slice header is not reassigned (exact root)
-				return true
-			}
-			return false
-		},
 	}
 }
 
